@@ -37,3 +37,15 @@ func init() {
 	propSpecs["C04"] = &PropSpec{ID: "C04", Roots: decodeRoots,
 		Note: "every automatically generated panic obligation (index, slice, nil dereference, type assertion, make, explicit panic, nil call) of ReadPacket and of the 16 UnmarshalBinary methods and of everything they call is discharged for arbitrary input bytes; plus the (packet, error) pair postcondition of ReadPacket/ReadRemaining"}
 }
+
+func init() {
+	streamRootsList := []string{"ReadPacket", "(*fixedHeader).ReadFrom", "(*fixedHeader).ReadRemaining", "(*bits).ReadFrom", "(*vbint).ReadFrom", "io.ReadAtLeast"}
+	propSpecs["C06"] = &PropSpec{ID: "C06", Roots: streamRootsList,
+		Note: "with the ghost stream (S, N, T, $pos) and every Read returning an arbitrary legal chunk: if the fixed header at old($pos) is valid and the stream holds the whole frame, ReadPacket leaves $pos exactly 1 + size of the remaining-length field + remaining length further, whether it returns a packet or rejects the content; header bytes and body are read by io.ReadFull whose real stdlib body (io.ReadAtLeast) is verified against the same stream contract"}
+	propSpecs["C07"] = &PropSpec{ID: "C07", Roots: streamRootsList,
+		Note: "the postconditions of ReadPacket and of the five functions under it mention only the stream contents S, its end N, its terminal error T and the entry position, while the chunk size of every Read (including 0 and data-with-error) is unconstrained in the verification conditions; discharging them is therefore a proof for every fragmentation. That the decoded packet is a function of the delivered bytes follows from the buffer-equals-stream-segment postcondition of io.ReadAtLeast and the absence of any other input to UnmarshalBinary"}
+	propSpecs["C08"] = &PropSpec{ID: "C08", Roots: streamRootsList,
+		Note: "if the stream stops before the frame is complete ReadPacket returns (nil, err) with err != nil; errors.Is(err, T) holds for a non-EOF failure T and at a frame boundary (trusted model of fmt.Errorf %w and errors.Is over a ghost wraps relation); a packet is returned only if header and body were fully delivered"}
+	propSpecs["C15"] = &PropSpec{ID: "C15", Roots: []string{"(vbint).fill", "(vbint).width", "(vbint).fillProp", "(*vbint).UnmarshalBinary", "(*vbint).ReadFrom", "lemmaVbRoundTrip"},
+		Note: "encoder: width and every byte equal the closed-form specification (seven-bit groups, least significant first, continuation bit on all but the last) for all values; decoders: result equals the specification-level decoder specVbOK/specVbValue on every byte sequence (so the two decoders agree), sequences ending on a continuation byte or continuing past four bytes are rejected; round trip and minimality as a lemma over the spec functions for all v <= 268435455"}
+}
